@@ -330,6 +330,15 @@ def corr_census_runtime(ck: Ck, side: dict) -> None:
 
 
 # ------------------------------------------------------------------------------------------------ operators
+def operand_expr(x: Any) -> str:
+    """A Python expression (namespace of srctools.math) that rebuilds an operand for a replay."""
+    n = type(x).__name__
+    if n in ('Matrix', 'FrozenMatrix'):
+        a = x.to_angle()
+        return f'Matrix.from_angle(Angle({a.pitch!r}, {a.yaw!r}, {a.roll!r}))' + ('.freeze()' if n == 'FrozenMatrix' else '')
+    return repr(x)
+
+
 def search_operators(ck: Ck) -> None:
     from harness.c09_util import bits
     from srctools.math import Angle, FrozenAngle, FrozenMatrix, FrozenVec, Matrix, Vec
@@ -362,6 +371,7 @@ def search_operators(ck: Ck) -> None:
                 if not (hasattr(a, 'copy') or hasattr(b, 'copy')):
                     continue
                 sa, sb = bits(a), bits(b)
+                ea, eb = operand_expr(a), operand_expr(b)
                 try:
                     with warnings.catch_warnings():
                         warnings.simplefilter('ignore')
@@ -376,8 +386,8 @@ def search_operators(ck: Ck) -> None:
                     side = 'left' if bits(a) != sa else 'right'
                     cat = 'rotation' if tb.endswith(('Angle', 'Matrix')) else 'vector' if tb.endswith('Vec') else 'scalar-or-tuple'
                     ck.violation(f'operand-changed:{ta}{name}{cat}',
-                                 f'{ta} {name} {tb} changed its {side} operand', {'op': name, 'a': repr(a), 'b': repr(b),
-                                 'a_before': repr(sa), 'b_before': repr(sb)})
+                                 f'{ta} {name} {tb} changed its {side} operand', {'op': name, 'a_expr': ea, 'b_expr': eb,
+                                 'a_after': repr(a), 'b_after': repr(b), 'how': 'a = eval(a_expr); b = eval(b_expr); a <op> b; compare'})
                 elif res is not None and (res is a or res is b) and hasattr(res, 'copy') and not type(res).__name__.startswith('Frozen'):
                     ck.violation(f'operator-returns-operand:{ta}{name}{tb}',
                                  f'{ta} {name} {tb} returned one of its (mutable) operands', {'op': name, 'a': repr(a), 'b': repr(b)})
@@ -653,6 +663,8 @@ def run(ck: Ck) -> None:
     ok_t = ck.translate('CopyCensus_gen', c09_copy.translate)
     side = ck.extra.get('translated', {}).get('CopyCensus_gen', {})
     built = ok_t and ck.build(['Props/C09.vo'])
+    if ok_t:
+        ck.sample({'census_Side(field, kind, how, source expression)': side.get('census', {}).get('Side')})
     if built:
         ck.theorems('Props/C09.v')
         obs = {}
@@ -715,6 +727,22 @@ def replay(data: dict) -> int:
     if 'how' in r and 'run_instance_case' in r['how']:
         for p in run_instance_case(r['case_seed']):
             print(p['key'], '--', p['what'])
+        return 0
+    if 'a_expr' in r and 'b_expr' in r:
+        import srctools.math as M
+        from harness.c09_util import bits
+        ns = {k: getattr(M, k) for k in ('Vec', 'FrozenVec', 'Angle', 'FrozenAngle', 'Matrix', 'FrozenMatrix')}
+        a, b = eval(r['a_expr'], ns), eval(r['b_expr'], ns)
+        sa, sb = bits(a), bits(b)
+        ops = {'+': operator.add, '-': operator.sub, '*': operator.mul, '/': operator.truediv, '//': operator.floordiv,
+               '%': operator.mod, '@': operator.matmul, 'divmod': divmod, '==': operator.eq, '<': operator.lt, '>=': operator.ge}
+        print('before:', a, '|', b)
+        try:
+            print('result:', ops[r['op']](a, b))
+        except Exception as e:
+            print('raised', type(e).__name__, e)
+        print('after: ', a, '|', b)
+        print('left operand changed:', bits(a) != sa, ' right operand changed:', bits(b) != sb)
         return 0
     print(json.dumps(r, indent=1))
     return 0
